@@ -780,7 +780,14 @@ def rule_slice_assign_fit(repo):
     return rule_fit(repo)
 
 
-RULES = [rule_range, rule_guard, rule_optable, rule_tables, rule_exhaustive, rule_shiftbound, rule_slice_assign_fit]
+def rule_result_is_value(repo):
+    """every operator returns a fresh Bits (an identity shortcut such as `x >> 0 -> self` makes the result change with a later
+    in-place write to the operand); in-place operators return self.  Shared with C05 (R-C05-value)."""
+    from rules.c05 import rule_value_semantics
+    return rule_value_semantics(repo)
+
+
+RULES = [rule_range, rule_guard, rule_optable, rule_tables, rule_exhaustive, rule_shiftbound, rule_slice_assign_fit, rule_result_is_value]
 
 
 # ---------------------------------------------------------------------------
